@@ -88,7 +88,7 @@ Proof.
   assert (Hw1 : winv own cur (emit (ECPoll (cid c) b s (b, s)) (g_poll w))).
   { apply winv_emit; auto. apply winv_g_poll; auto. }
   destruct (cdone c); simpl.
-  - apply winv_emit; auto.
+  - apply winv_emit; auto. apply winv_g_done; auto.
   - destruct (cscript c) as [|[acts r0] rest]; simpl.
     + apply winv_emit; auto.
     + apply winv_emit; auto. apply winv_do_acts; auto.
